@@ -161,6 +161,10 @@ class Ctx:
             m = re.match(r"^The depth of the complete state graph search is (\d+)", ln)
             if m:
                 r.depth = int(m.group(1))
+            m = re.match(r"^The number of states generated: (\d+)", ln)
+            if m and simulate is not None:
+                r.generated = int(m.group(1))
+                r.distinct = int(m.group(1))
             if ln.startswith("Error:") and r.error is None:
                 r.error = ln
         shutil.rmtree(meta, ignore_errors=True)
